@@ -66,7 +66,7 @@ RAYON_PATH_RE = re.compile(r"\brayon::(?!prelude\b)(\w+)")
 POLARS_RE = re.compile(r"\.(groupby|group_by|groupby_stable|unique|unique_stable|n_unique|arg_unique)\s*\(")
 
 # --------------------------------------------------------------------------------------------------
-# REVIEWED: (file, fn, whitespace-free statement) -> (justification, note)
+# REVIEWED: (file, fn, whitespace-free statement, container the receiver resolves to) -> (justification, note)
 # Edit a Rust statement listed here and its entry no longer matches: the site turns `unreviewed`.
 # --------------------------------------------------------------------------------------------------
 REVIEWED = [
@@ -74,60 +74,60 @@ REVIEWED = [
     ("consist/locomotive/loco_sim.rs", "walk",
      'self.0.par_iter_mut().enumerate().try_for_each(|(i,loco_sim)|{#[cfg(feature="")]log::info!("");loco_sim.walk()'
      '.map_err(|err|err.context(format!("",i)))})?',
-     "parElementwise",
+     "rayon", "parElementwise",
      "closure captures nothing mutable; receives (&mut element, its index); model Altrios/Par.lean"),
     # ---- std HashMap / HashSet
     ("train/train_config.rs", "cars_total",
      "self.n_cars_by_type.values().fold(0,|acc,n|*n+acc)",
-     "natSumPerm", "u32 sum over map values"),
+     "stdHashMap", "natSumPerm", "u32 sum over map values"),
     ("train/train_config.rs", "check_rv_keys",
      "let n_cars_type_set=HashSet::<String>::from_iter(self.train_config.n_cars_by_type.keys().cloned())",
-     "setCollectPerm", "keys collected into a set; only membership is used afterwards"),
+     "stdHashMap", "setCollectPerm", "keys collected into a set; only membership is used afterwards"),
     ("train/train_config.rs", "check_rv_keys",
      "let extra_keys_in_rv=rv_car_type_set.difference(&n_cars_type_set).collect::<Vec<&String>>()",
-     "diffEmptyPerm", "only is_empty() decides; the vector is printed in the bail! message"),
+     "stdHashSet", "diffEmptyPerm", "only is_empty() decides; the vector is printed in the bail! message"),
     ("train/train_config.rs", "check_rv_keys",
      "let extra_keys_in_n_cars=n_cars_type_set.difference(&rv_car_type_set).collect::<Vec<&String>>()",
-     "diffEmptyPerm", "only is_empty() decides; the vector is printed in the bail! message"),
+     "stdHashSet", "diffEmptyPerm", "only is_empty() decides; the vector is printed in the bail! message"),
     ("track/path_track/path_tpc.rs", "extract_speed_set",
      'let speed_set=match speed_set{Some(s)=>s,None=>{speed_sets.iter().find(|&sps|sps.0==&train_params.train_type)'
      '.with_context(||{anyhow!("",train_params.train_type,speed_sets.keys())})?.1}}',
-     "findDistinctKeys",
+     "stdHashMap", "findDistinctKeys",
      "find by key over map entries (keys distinct); speed_sets.keys() only feeds the error text"),
     ("track/link/speed/speed_set.rs", "validate",
      'validate_slice_real(&mut errors,&self.values().collect::<Vec<&SpeedSet>>(),"")',
-     "verdictPerm", "verdict = no error collected; positions in the message text follow iteration order"),
+     "stdHashMap", "verdictPerm", "verdict = no error collected; positions in the message text follow iteration order"),
     ("consist/locomotive/locomotive_model.rs", "from_hash",
      'ensure!(params.is_empty(),"",format_dbg!(),params.keys())',
-     "errorTextOnly", "keys printed in the error message; the decision is params.is_empty()"),
+     "stdHashMap", "errorTextOnly", "keys printed in the error message; the decision is params.is_empty()"),
     ("train/train_config.rs", "make_speed_limit_train_sim",
      'Ok(SpeedLimitTrainSim::new(self.train_id.clone(),location_map.get(self.origin_id.as_ref().unwrap())'
      '.with_context(||{anyhow!(format!("",format_dbg!(),self.origin_id.as_ref().unwrap(),location_map.keys()))})?,'
      'location_map.get(self.destination_id.as_ref().unwrap()).with_context(||{anyhow!(format!("",format_dbg!(),'
      'self.destination_id.as_ref().unwrap(),location_map.keys()))})?,self.loco_con.clone(),state,train_res,path_tpc,'
      'fric_brake,save_interval,simulation_days,scenario_year))',
-     "errorTextOnly", "location_map.keys() is printed when the `get` by key failed; lookups are by key"),
+     "stdHashMap", "errorTextOnly", "location_map.keys() is printed when the `get` by key failed; lookups are by key"),
     ("train/train_config.rs", "make_speed_limit_train_sim_and_parts",
      'let ts=SpeedLimitTrainSim::new(self.train_id.clone(),location_map.get(self.origin_id.as_ref().unwrap())'
      '.with_context(||{anyhow!(format!("",format_dbg!(),self.origin_id.as_ref().unwrap(),location_map.keys()))})?,'
      'location_map.get(self.destination_id.as_ref().unwrap()).with_context(||{anyhow!(format!("",format_dbg!(),'
      'self.destination_id.as_ref().unwrap(),location_map.keys()))})?,self.loco_con.clone(),state,train_res.clone(),'
      'path_tpc.clone(),fric_brake.clone(),save_interval,simulation_days,scenario_year)',
-     "errorTextOnly", "as above"),
+     "stdHashMap", "errorTextOnly", "as above"),
     # ---- serialized map fields (order of entries in the emitted text only; content is a map)
     ("track/link/link_impl.rs", "struct Link",
      "pub speed_sets:HashMap<TrainType,SpeedSet>",
-     "serdeMapOrder", "YAML/JSON/bincode entry order follows the hash seed; deserialization is order-free"),
+     "stdHashMap", "serdeMapOrder", "YAML/JSON/bincode entry order follows the hash seed; deserialization is order-free"),
     ("train/train_config.rs", "struct TrainConfig",
      "pub n_cars_by_type:HashMap<String,u32>",
-     "serdeMapOrder", "as above"),
+     "stdHashMap", "serdeMapOrder", "as above"),
     # ---- nohash IntMap / IntSet (identity hasher: no per-process seed)
     ("meet_pass/train_disp/mod.rs", "struct TrainDisp",
      "links_on_path:IntSet<LinkIdx>",
-     "seedlessHasher", "serialized in set order; the order is a function of the inserted LinkIdx values"),
+     "intSet", "seedlessHasher", "serialized in set order; the order is a function of the inserted LinkIdx values"),
     ("meet_pass/est_times/mod.rs", "add_new_join_paths",
      "for est_idx in est_idxs_push{est_join_paths_save.push(EstJoinPath::new(link_event_add.link_idx,*est_idx));}",
-     "seedlessHasher",
+     "intSet", "seedlessHasher",
      "ORDER-SENSITIVE (join paths are pushed in set order and the first best speed match wins) but the order is a "
      "function of the inserted EstIdx values only: BuildNoHashHasher has no state"),
 ]
@@ -1347,10 +1347,10 @@ def scan(repo):
         uniq.append(s)
     uniq.sort(key=lambda s: (s["file"], s["line"], s["stmt"]))
     # justification
-    table = {(fl, fn, st): (j, note) for (fl, fn, st, j, note) in REVIEWED}
+    table = {(fl, fn, st, ct): (j, note) for (fl, fn, st, ct, j, note) in REVIEWED}
     used = set()
     for s in uniq:
-        key = (s["file"], s["fn"], s["stmt"])
+        key = (s["file"], s["fn"], s["stmt"], s["container"])
         j, note = table.get(key, ("unreviewed", ""))
         if key in table:
             used.add(key)
@@ -1420,9 +1420,9 @@ def regen(root, repo="/repo"):
     if not os.path.exists(out) or open(out).read() != txt:
         with open(out, "w") as fo:
             fo.write(txt)
-    work = os.path.join(root, "work")
+    work = os.path.join(root, "work", "C18-scan")
     os.makedirs(work, exist_ok=True)
-    with open(os.path.join(work, "C18-order-sites.json"), "w") as fo:
+    with open(os.path.join(work, "order-sites.json"), "w") as fo:
         json.dump({"sites": sites, "foreign_unordered": foreign, "stale_reviews": stale}, fo, indent=1)
     return sites
 
